@@ -54,6 +54,7 @@ type Node struct {
 	log         []string
 	bad         func(hs []*wire.BlockHeader) []*wire.BlockHeader // misbehaviour applied to the next reply
 	out         chan wire.Message
+	lastReply       []*wire.BlockHeader
 	allRequests     []*wire.MsgGetHeaders
 	checkedRequests int
 	getHeadersSeen int
@@ -231,6 +232,7 @@ func (n *Node) Deliver() bool {
 	}
 	m := wire.NewMsgHeaders()
 	m.Headers = hs
+	n.lastReply = hs
 	n.write(m)
 	return true
 }
